@@ -95,7 +95,6 @@ Section Traced.
         end
     end.
 
-  Definition strip {A B C} (x : A * B * C) : A * B := fst x.
 End Traced.
 
 (* ---------------------------------------------------------------------------------------------------------------- *)
